@@ -561,3 +561,36 @@ def q10_store_fabricates_no_effect(ctx, rep):
         rep.ok(R, "reducer-thread-fabricates-no-effect", ctx.where(cl), "none of the %d bodies that run synchronously on the reducer thread constructs an %s" % (len(reach), epath))
     for b, bi, v in bad:
         rep.bad(R, "reducer-thread-fabricates-no-effect:%s:%s" % (short(b.path), v), ctx.where(b, bi), "%s constructs Effect::%s on the reducer thread: the store re-posts work of its own (an Effect::Action re-enters the queue behind later dispatches)" % (short(b.path), v))
+
+
+def q11_one_slot_one_action(ctx, rep):
+    """one slot of the dispatch queue is one action: the queue item type has exactly the two
+    kinds `Action(a)` and `Exit(..)`, and every enqueue on the dispatch sender builds one of
+    them in place.  A third kind (`Batch(Vec<Action>)`, a re-queued backlog, ..) makes the
+    capacity bound, the drop accounting and the per-action pipeline count messages, not actions."""
+    R = "Q11"
+    A = ctx.A
+    adt = A.actionop
+    names = [v["name"] for v in adt["variants"]]
+    rep.check(sorted(names) == ["Action", "Exit"], R, "queue-item-kinds", "%s:%d" % (adt["loc"]["file"], adt["loc"]["line"]),
+              "queue items are Action(a) | Exit(..)", "queue item kinds are %s: a slot of the bounded queue no longer stands for exactly one action" % names)
+    av = [v for v in adt["variants"] if v["name"] == "Action"]
+    if av:
+        tys = [f["ty"] for f in av[0]["fields"]]
+        coll = [t for t in tys if any(c in t for c in ("Vec<", "VecDeque<", "[", "Box<[", "SmallVec<", "LinkedList<"))]
+        rep.check(len(tys) == 1 and not coll, R, "action-item-carries-one-action", "%s:%d" % (adt["loc"]["file"], adt["loc"]["line"]),
+                  "the Action item carries one action (%s)" % tys, "the Action item carries %s" % tys)
+    n = 0
+    for b in ctx.prog.bodies:
+        bp = ctx.prog.bp(b)
+        for s_ in ctx.prog.sites(b):
+            if not A.is_send_wrapper_call(s_):
+                continue
+            recv = bp.arg_term(s_.bb, 0)
+            if not any(st[0] == "field" and st[2] == A.f_tx for st in subterms(recv)):
+                continue
+            n += 1
+            item = strip_wrap(bp.arg_term(s_.bb, 1))
+            good = item[0] == "agg" and A.actionop["path"] in item[1] and item[1].rsplit("::", 1)[-1] in ("Action", "Exit")
+            rep.check(good, R, "enqueues-one-item-built-in-place:%s" % short(b.path), s_.where, "enqueues %s" % term_str(item)[:80], "enqueues %s on the dispatch queue" % term_str(item)[:120])
+    rep.floor(R, "enqueue sites on the dispatch sender", n, 3)
